@@ -24,7 +24,7 @@ def key(v, ev):
 def gen(thorough=False):
     if thorough:
         cfg = "Gen_Palette_deep.cfg"
-        src = open(os.path.join(ROOT, SPEC, "Gen_Palette.cfg")).read().replace("MaxOps = 4", "MaxOps = 6").replace("MaxLen = 3", "MaxLen = 4")
+        src = open(os.path.join(ROOT, SPEC, "Gen_Palette.cfg")).read().replace("MaxOps = 3", "MaxOps = 4")
         open(os.path.join(ROOT, SPEC, cfg), "w").write(src)
         return vlib.generate(SPEC, "MC_Palette", cfg, os.path.join(vlib.GEN, "palette_deep.ndjson"), timeout=2400), os.path.join(vlib.GEN, "palette_deep.ndjson")
     return vlib.generate(SPEC, "MC_Palette", "Gen_Palette.cfg", os.path.join(vlib.GEN, "palette.ndjson")), os.path.join(vlib.GEN, "palette.ndjson")
@@ -34,7 +34,7 @@ def run():
     c = Check("C16")
     thorough = c.tier == "thorough"
     if thorough:
-        src = open(os.path.join(ROOT, SPEC, "MC_Palette.cfg")).read().replace("MaxOps = 5", "MaxOps = 7").replace("MaxLen = 4", "MaxLen = 5")
+        src = open(os.path.join(ROOT, SPEC, "MC_Palette.cfg")).read().replace("MaxOps = 4", "MaxOps = 5").replace("MaxLen = 3", "MaxLen = 4")
         open(os.path.join(ROOT, SPEC, "MC_Palette_deep.cfg"), "w").write(src)
         c.mc(SPEC, "MC_Palette", "MC_Palette_deep.cfg", workers=8, timeout=3000, xmx="16g")
     else:
@@ -48,7 +48,7 @@ def run():
     c.sample_from(shards[0], 3)
     c.extra["tlc_generated_behaviours"] = g["n"]
     c.extra["distinct_nontrivial"] = sum(int(r.get("r4", 0)) + int(r.get("r5", 0)) + int(r.get("r6", 0)) + int(r.get("r7", 0)) for r in c.reports)
-    c.rule = ("R1: TLC explores every sequence of <= 5 palette operations (insert/set/resize/clear over 4 colours) of Palette.tla and checks InsertOk and the 6-bit codec laws; "
+    c.rule = ("R1: TLC explores every sequence of <= 4 (thorough: 5) palette operations (insert / set / set with a colour name / resize / clear over 4 colours) of Palette.tla and checks InsertOk and the 6-bit codec laws; "
               "R2: one TLC witness per distinct (palette, depth) is replayed into icy_engine::Palette, plus seeded histories on palettes up to 300 colours, colours added through "
               "SGR/CSI t terminal sequences, 5 palette file formats x sizes x optional fields, all/many 6-bit triples; R3: Trace_Palette evaluates InsertResolves/IndexStable/"
               "InsertIdempotent/FileRoundTrip/Vga idempotence on every recorded step. distinct_nontrivial = number of insert/add/file/vga events checked.")
